@@ -233,6 +233,56 @@ pub fn run(run: &Run) -> i32 {
             digests.insert(n, d);
         }
     }
+    // the command-line front end (src/cli/dvbs2.rs) maps (rate string, --short) to an identifier:
+    // every valid combination must print the pinned matrix of the identifier the standard gives
+    // that combination; the one invalid combination (9/10 short) must fail
+    if only.is_none() || only.as_deref() == Some("cli") {
+        let rates = ["1/4", "1/3", "2/5", "1/2", "3/5", "2/3", "3/4", "4/5", "5/6", "8/9", "9/10"];
+        let mut jobs: Vec<(String, bool)> = Vec::new();
+        for short in [false, true] {
+            for r in rates {
+                jobs.push((r.to_string(), short));
+            }
+        }
+        let part = par_items(&jobs, |(rate, short), a| {
+            a.evals += 1;
+            a.nontrivial += 1;
+            let mut args = crate::c20::sargs(&["dvbs2", "--rate", rate]);
+            if *short {
+                args.push("--short".into());
+            }
+            let ident = format!("R{}{}", rate.replace('/', "_"), if *short { "short" } else { "" });
+            let key = format!("dvbs2:cli:{}", ident);
+            let replay = json!({"kind": "cli", "name": "cli", "args": args});
+            let o = crate::c20::run_cli(&args, 120);
+            if rate == "9/10" && *short {
+                if o.timed_out || o.status == Some(0) || o.status.is_none() || o.stderr.contains("panicked at") {
+                    a.violate(key, format!("rate 9/10 does not exist for short frames, but the tool exits with {:?}", o.status), replay);
+                }
+                return;
+            }
+            if o.timed_out || o.status != Some(0) {
+                a.violate(key, format!("exit status {:?} (timed out: {}), stderr {:?}", o.status, o.timed_out, o.stderr.lines().next()), replay);
+                return;
+            }
+            match guard(|| ldpc_toolbox::sparse::SparseMatrix::from_alist(&o.stdout)) {
+                Ok(Ok(h)) => {
+                    let d = matrix_digest(&h);
+                    match pins.get(&ident) {
+                        Some(p) if *p == d => a.outcome(&d),
+                        Some(p) => a.violate(key, format!("the tool prints a {}x{} matrix with digest {}, the pinned reference for {} is {}", h.num_rows(), h.num_cols(), d, ident, p), replay),
+                        None => {
+                            if std::env::var("VERIF_WRITE_PINS").is_err() {
+                                machinery(&format!("C06: no pinned digest for {}", ident));
+                            }
+                        }
+                    }
+                }
+                other => a.violate(key, format!("stdout is not an alist: {:?}", other.map(|r| r.map(|_| ()))), replay),
+            }
+        });
+        acc = acc.merge(part);
+    }
     if only.is_none() && codes.len() != 21 {
         acc.violate("dvbs2:count".into(), format!("{} code identifiers, the standard has 21", codes.len()), json!({"kind": "count"}));
     }
@@ -248,7 +298,7 @@ pub fn run(run: &Run) -> i32 {
         run,
         acc,
         Coverage {
-            rule: "all 21 Code variants (enum_iterator::all). Per code: dimensions and q against literal Tables 5a/5b/7a/7b; the 360-column shift law for every information column; information-part column-degree profile against the standard's; exact dual-diagonal parity part; no 4-cycle (independent row-pair test); Encoder::from_h succeeds, uses the staircase form (Debug prefix) within the time budget, three encodings satisfy H; girth 6 for normal 1/2 (thorough: girth_with_max(6) against the reference for every code); SHA-256 of the sorted entry list equals reference/dvbs2.json. Every identifier is a distinct non-trivial case.".into(),
+            rule: "all 21 Code variants (enum_iterator::all). Per code: dimensions and q against literal Tables 5a/5b/7a/7b; the 360-column shift law for every information column; information-part column-degree profile against the standard's; exact dual-diagonal parity part; no 4-cycle (independent row-pair test); Encoder::from_h succeeds, uses the staircase form (Debug prefix) within the time budget, three encodings satisfy H; girth 6 for normal 1/2 (thorough: girth_with_max(6) against the reference for every code); SHA-256 of the sorted entry list equals reference/dvbs2.json. Command-line front end: all 22 (rate, --short) combinations of the real binary; each valid one must print the pinned matrix of the identifier the standard assigns to it, 9/10 short must fail. Every identifier is a distinct non-trivial case.".into(),
             exhaustive: true,
             extra,
             graph: None,
